@@ -305,6 +305,9 @@ def summaries(cfg, src=None, dst=None, start_env=None, feasible_only=True, inclu
     for p in paths(cfg, src, dst):
         if not include_raise and dst is None and p[-1] == cfg.raise_exit:
             continue
+        # a completed `return` does not continue in an exception handler
+        if any(cfg.kind(a) == "return" and cfg.kind(b) == "except" for a, b in zip(p, p[1:])):
+            continue
         _VALUE_ONLY[0] = bool(value_only)
         try:
             s = summarise_path(cfg, p, start_env)
